@@ -5,7 +5,7 @@ ConvAll == {"none", "UTF8", "JSON", "DECIMAL", "UINT_8", "UINT_16", "UINT_32", "
             "TIME_MILLIS", "DATE", "TIMESTAMP_MILLIS", "TIME_MICROS", "TIMESTAMP_MICROS"}
 UnitsAll == {"none", "ms", "us", "ns"}
 RepsBoth == {"REQUIRED", "OPTIONAL"}
-MdAll == {"absent", "natural", "nullable", "coarser"}
+MdAll == {"absent", "natural", "nullable", "coarser", "tz"}
 StatsAll == {"absent", "zero", "some"}
 NullsBoth == {TRUE, FALSE}
 Export == PrintT(ToJson([pt |-> c.pt, ct |-> c.ct, lts |-> c.lts, rep |-> c.rep, md |-> k, mdtype |-> MdType(c, k),
